@@ -10,11 +10,14 @@ Definition cover1 (k v : Z) : Z := v + 1.
 Definition cover2 (k v : Z) : Z := v + 2.
 Definition chas (k : Z) : bool := Z.odd k.
 Definition cmf (k : Z) : Z := 7 * k + 3.
+(** sort_fields: class k declares three fields whose `order` attributes put them in the
+    (k mod 6)-th permutation; the harness encodes the list it got back as 100k + that index *)
+Definition csf (k : Z) : Z := 100 * k + k mod 6.
 
-Notation cstep := (step Z cbase cover1 cover2 chas cmf).
-Notation crun := (run Z cbase cover1 cover2 chas cmf).
+Notation cstep := (step Z cbase cover1 cover2 chas cmf csf).
+Notation crun := (run Z cbase cover1 cover2 chas cmf csf).
 Notation cinit := (init Z cbase).
-Notation calone := (alone Z cbase cover1 cover2 chas cmf).
+Notation calone := (alone Z cbase cover1 cover2 chas cmf csf).
 
 Definition enc (o : option Z) : Z := match o with None => -1 | Some d => d end.
 Definition b2z (b : bool) : Z := if b then 1 else 0.
@@ -45,6 +48,8 @@ Definition event (v : variant) (reqs : Z -> req) (s : state Z) (t : Z) : Z * Z *
   | M_set => (20, k, cmf k)
   | M_relv | M_rel => (21, 0, 0)
   | M_get => (22, k, enc (memo s k))
+  | S_get => (23, k, enc (scache s k))
+  | S_set => (24, k, csf k)
   | Done => (0, 0, 0)
   end.
 
